@@ -365,3 +365,15 @@ def contracts():
     u = _c05.update_contract()
     u.prop = PROP
     return _c06_base2() + [u]
+
+
+# dependent methods are (re)installed by _update_deps and invoked through _sync_caller (verified for C07)
+_c06_base3 = contracts
+
+
+def contracts():
+    from contracts import c07 as _c07
+    extra = [_c07.update_deps_iteration_contract(), _c07.sync_caller_contract(True), _c07.sync_caller_contract(False)]
+    for c in extra:
+        c.prop = PROP
+    return _c06_base3() + extra
